@@ -64,6 +64,11 @@ def monitor(case, out):
             was = before.get(key)
             if was is not None and was["left"] and not v["left"]:
                 return {"step": i, "why": "%s no longer considers %s left" % (ids[o], x), "sig": "left-not-final"}
+            if was is not None and v["left"] and not was["left"] and was["expiry"] != 0 and v["expiry"] <= was["expiry"]:
+                # "is forgotten after the expiry period": the period counts from the moment the observer learns of the departure,
+                # not from an earlier moment at which it merely suspected the node
+                return {"step": i, "why": "%s learned that %s left while holding it as unreachable; the expiry period was not restarted (deadline unchanged)" % (ids[o], x),
+                        "sig": "leave-keeps-old-deadline"}
             if (v["left"] or v["unreach"]) and v["expiry"] == 0:
                 return {"step": i, "why": "%s holds %s as left/unreachable without an expiry" % (ids[o], x), "sig": "no-expiry"}
             if not v["left"] and not v["unreach"] and v["expiry"] != 0:
